@@ -36,8 +36,9 @@ TECHNIQUE = 'Lean 4 proved checker (GF(2) Gaussian elimination) on the implement
 RULE = ('one case = one molecular graph in a concrete atom numbering and dict insertion order (wire ints) together with the ring '
         'list the implementation reported for it; generated as: every labelled connected graph with <= 6 atoms (quick; <= 7 atoms '
         'and <= 5 rings thorough) of degree <= 4, one representative per isomorphism class of 7-atom (<= 5 rings) and 8-atom '
-        '(<= 3 rings) graphs under random renumberings, random fused/spiro/bridged ring assemblies and macrocycles with random '
-        'coordinate (order 8) bonds, corpus / handmade / test/*.sdf molecules, each also after random renumbering; a case is '
+        '(<= 3 rings) graphs under random renumberings, theta graphs with bridges 1..6, random fused/spiro/bridged ring assemblies '
+        'and macrocycles with random coordinate (order 8) and aromatic (order 4) bonds, pendant chains and extra components, '
+        'corpus / handmade / test/*.sdf molecules, each also after random renumbering; a case is '
         'non-trivial when the graph has at least one ring (cyclomatic number >= 1); distinct by the full wire line; plus '
         'random tuples for _canonic_ring/_ring_scissors/_ring_adjacency (non-trivial: length >= 3)')
 TRUSTED = ['harness/wire.py molecule encoder and the field canonicalisers of harness/props/c06.py',
@@ -45,9 +46,14 @@ TRUSTED = ['harness/wire.py molecule encoder and the field canonicalisers of har
            'reference minimum cycle basis (Horton candidate completeness: textbook result, validated against exhaustive '
            'all-cycles greedy in Python for <= 6 atoms, not proved in Lean)']
 ASSUMPTIONS = ['molecule adjacency is symmetric and closed (Graph invariant; the driver answers `malformed` otherwise)',
-               'CPython set iteration order is not modelled: components are compared as sorted blocks',
-               'recorded gaps (bicyclic cores with three bridges of >= 3 bonds; dense cages: a block with >= 12 bonds on <= 7 atoms '
-               'or cyclomatic number >= 6) are excluded from the minimality / ImplementationError clauses only']
+               'CPython set iteration order is not modelled: components are compared as sorted blocks; dict key order and the order '
+               'of rings inside per-atom lists are not part of the property and are sorted before comparing',
+               'classes excluded from the minimality / numbering clauses only (gap_class): recorded bicyclic cores with three bridges '
+               'of >= 3 bonds; recorded dense cages (block with >= 6 independent rings and average degree >= 3; there also dependent '
+               'sets / ImplementationError); known finding C06/not-minimum/multi-bridge-core (polycyclic block, two atoms at '
+               'distance >= 3 joined by >= 3 disjoint bridges) — every other clause is checked on these graphs too',
+               'labelled enumeration of 8-atom graphs (about 1e7) is replaced by one representative per isomorphism class under random '
+               'renumberings; `exhaustive` refers to the labelled stream (<= 6 atoms quick, <= 7 atoms and <= 5 rings thorough)']
 HAS_DRIVER = True
 EXTRA_MODULES = ['Spec.CycleBasis', 'Model.C06Rings']
 FINDINGS_MODULE = 'ChythonModel.Findings.C06'
@@ -530,6 +536,8 @@ def evaluate(cases, build_ok=True):
             d['with-coordinate-bonds'] += 1
         if mu > 0 and len(res['samples']) < 3:
             res['samples'].append({'request': line[:300], 'model': rl[:400], 'impl_sssr': [list(x) for x in (rings or [])][:6]})
+        if fields.get('arom'):
+            d['with-aromatic-rings'] += 1
         if '_' in r:
             broke('correspondence', 'driver-answer', f'{tag}: driver answered {rl!r} for {line[:300]}', ints)
             continue
@@ -923,6 +931,14 @@ def property_failures(ints, check_numbering=True, rng=None, apply_exemptions=Tru
         add('atoms-rings', f'atoms_rings={mol.atoms_rings}')
     if mol.atoms_rings_sizes != {n: {len(r) for r in rs} for n, rs in ar.items()}:
         add('atoms-rings-sizes', f'atoms_rings_sizes={mol.atoms_rings_sizes}')
+    want = sorted(r for r in rings if all(mol._bonds[a].get(b) is not None and mol._bonds[a][b].order == 4
+                                          for a, b in zip(r, r[1:] + r[:1])))
+    try:
+        got = sorted(tuple(r) for r in mol.aromatic_rings)
+    except Exception as e:
+        got = 'raises ' + type(e).__name__
+    if got != want:
+        add('aromatic-rings', f'aromatic_rings={got}, reported rings whose bonds all have order 4: {want}')
     mol.calc_labels()
     for n, ms in mol._bonds.items():
         a = mol._atoms[n]
@@ -1027,14 +1043,16 @@ def search(ctx):
             if len(edges) - n + 1 > 5:
                 continue
             sp = [rng.choice(edges)] if rng.random() < 0.3 else []
-            try_ints(graph_ints(n, edges, sp))
+            p_ar = rng.choice([0, 0.6, 1])
+            try_ints(graph_ints(n, edges, sp, aromatic=[e for e in edges if rng.random() < p_ar]))
         if time.time() - t0 > budget * 2 / 3 or len(seen_sig) >= 6:
             break
     while time.time() - t0 < budget and len(seen_sig) < 6:
         edges = molgen.ring_assembly(rng)
         n = max(v for e in edges for v in e)
         sp = rng.sample(edges, min(rng.choice([0, 1, 2]), len(edges)))
-        try_ints(renumbered_ints(rng, graph_ints(n, edges, sp)))
+        p_ar = rng.choice([0, 0.6, 1])
+        try_ints(renumbered_ints(rng, graph_ints(n, edges, sp, aromatic=[e for e in edges if rng.random() < p_ar])))
 
 
 def probe(inp):
